@@ -2,7 +2,7 @@ import anytree
 from anytree import NodeMixin, Resolver, ResolverError, RootResolverError, ChildResolverError
 
 
-def make_cls(sep, pathattr):
+def make_cls(sep, pathattr, kind=None):
     class RN(NodeMixin):
         separator = sep
 
@@ -14,6 +14,30 @@ def make_cls(sep, pathattr):
 
         def __repr__(self):
             return "RN%d" % self.label
+
+    if kind == "len":
+        class RNLen(RN):
+            """container-like: falsy exactly while it has no children (every leaf is falsy)"""
+
+            def __len__(self):
+                return len(self.children)
+        return RNLen
+    if kind == "falsy":
+        class RNFalsy(RN):
+            def __bool__(self):
+                return False
+        return RNFalsy
+    if kind == "eq":
+        class RNEq(RN):
+            def __eq__(self, other):
+                return isinstance(other, RN)
+
+            def __ne__(self, other):
+                return not isinstance(other, RN)
+
+            def __hash__(self):
+                return 5
+        return RNEq
     return RN
 
 
@@ -40,7 +64,7 @@ def impl(case):
     Resolver._match_cache.clear()          # class-level cache: start every case from the same state
     sep = case.get("sep", "/")
     pathattr = case.get("pathattr", "name")
-    cls = make_cls(sep, pathattr)
+    cls = make_cls(sep, pathattr, case.get("cls"))
     names = {k: v for k, v in case["names"]}
     index = {}
     build(case["tree"], names, cls, None, index)
